@@ -182,7 +182,6 @@ func parentMain() {
 		"message arrival for MConnection means the bytes passed to the onReceive callback at the time of the call",
 		"CA signature validity is ed25519 verification of the peer's raw 32-byte node key (what `gtool sign` produces) against the CURRENT validator set's CA members; 'admission applies' is read from authByCA: every peer unless it is a current validator and non_validator_node_auth is false")
 	scratch := lib.Scratch("C20")
-	defer os.RemoveAll(scratch)
 
 	self := os.Getenv("VERIF_SELF")
 	if self == "" {
@@ -262,6 +261,7 @@ func parentMain() {
 	run.Require("d_refused", 300)
 	run.Require("h_cases", 10)
 	run.Require("h_canary_admitted", 5)
+	os.RemoveAll(scratch)
 	os.Exit(run.Finish())
 }
 
